@@ -114,8 +114,11 @@ template <class K> static void c18_case(Ctx &ctx, bool thorough) {
         must_reject(mut, "re-encoded file with " + v.hostile_desc + " (reference decoder: " + e2 + ")", "oracle:c18.span-edit-accepted");
     }
     // (d) the input stream starts failing at byte k (it still reports its full size)
+    // quick tier: ~150 sampled positions plus the first 64 and the last 32 bytes (headers and the end-of-file chunk)
     size_t step_in = thorough ? 1 : std::max<size_t>(1, N / 150);
-    for (size_t k = rng.below(step_in); k < N; k += step_in) for (int mode = 0; mode < 2; ++mode) {
+    std::vector<size_t> pos_in; for (size_t k = rng.below(step_in); k < N; k += step_in) pos_in.push_back(k);
+    if (step_in > 1) { for (size_t k = 0; k < std::min<size_t>(64, N); ++k) pos_in.push_back(k); for (size_t k = N > 32 ? N - 32 : 0; k < N; ++k) pos_in.push_back(k); std::sort(pos_in.begin(), pos_in.end()); pos_in.erase(std::unique(pos_in.begin(), pos_in.end()), pos_in.end()); }
+    for (size_t k : pos_in) for (int mode = 0; mode < 2; ++mode) {
         FaultyInBuf buf(bytes, k, mode ? FaultyInBuf::THROW : FaultyInBuf::FAIL_READ);
         std::istream is(&buf);
         XMesh<K> t; IO::ReadResult r;
@@ -127,7 +130,9 @@ template <class K> static void c18_case(Ctx &ctx, bool thorough) {
     }
     // (e) the output stream accepts only k bytes
     size_t step_out = thorough ? 1 : std::max<size_t>(1, N / 150);
-    for (size_t k = rng.below(step_out); k < N; k += step_out) {
+    std::vector<size_t> pos_out; for (size_t k = rng.below(step_out); k < N; k += step_out) pos_out.push_back(k);
+    if (step_out > 1) { for (size_t k = 0; k < std::min<size_t>(64, N); ++k) pos_out.push_back(k); for (size_t k = N > 32 ? N - 32 : 0; k < N; ++k) pos_out.push_back(k); std::sort(pos_out.begin(), pos_out.end()); pos_out.erase(std::unique(pos_out.begin(), pos_out.end()), pos_out.end()); }
+    for (size_t k : pos_out) {
         FaultyOutBuf buf(k); std::ostream os(&buf);
         VF_NOTE("write failure after " << k << " bytes");
         auto r = IO::ovmb_write(os, *m);
